@@ -158,6 +158,40 @@ fn verif_grid() {
             match r { Ok(()) => Ok(()), Err(e) => Err(format!("interrupted after the first record; the next line is not valid UTF-8 and the run reports an error: {}", e)) }
         });
     }
+    // follow mode with a backlog of complete lines: after the interrupt none of them is consumed (nothing printed, no error)
+    for (i, (backlog, query)) in [("k=a v=1\nk=a v=2\nk=b v=3\n", "SELECT k, v FROM t"), ("k=a v=9223372036854775807\nk=a v=1\n", "SELECT SUM(v) AS s FROM t"), ("k=a v=1\nk=a v=x\n", "SELECT v + 1 AS w FROM t")].iter().enumerate() {
+        g.case(&format!("follow-backlog-{}", i), move || {
+            use sqlgrep::executor::FollowFileExecutor;
+            use std::os::unix::io::AsRawFd;
+            extern "C" { fn dup(fd: i32) -> i32; fn dup2(a: i32, b: i32) -> i32; fn close(fd: i32) -> i32; }
+            let file = write_temp("followed", backlog.as_bytes());
+            let out_path = temp_path("stdout");
+            let out = File::create(&out_path).unwrap();
+            std::io::stdout().flush().unwrap();
+            let saved = unsafe { dup(1) };
+            unsafe { dup2(out.as_raw_fd(), 1); }
+            let file2 = file.clone();
+            let query2 = query.to_string();
+            let worker = std::thread::spawn(move || -> Result<(), String> {
+                let tables = tables(T)?;
+                let statement = parsing::parse(&query2).map_err(|e| format!("{}", e))?;
+                let mut executor = FollowFileExecutor::new(Arc::new(AtomicBool::new(false)), File::open(&file2).map_err(|e| e.to_string())?, true, Default::default(), ExecutionEngine::new(&tables, &statement)).map_err(|e| e.to_string())?;
+                executor.execute().map_err(|e| format!("the interrupted run reports an error: {}", e))
+            });
+            let t0 = std::time::Instant::now();
+            while !worker.is_finished() && t0.elapsed() < std::time::Duration::from_secs(5) { std::thread::sleep(std::time::Duration::from_millis(10)); }
+            std::io::stdout().flush().unwrap();
+            unsafe { dup2(saved, 1); close(saved); }
+            let mut text = String::new();
+            { use std::io::Read; let _ = File::open(&out_path).and_then(|mut f| f.read_to_string(&mut text)); }
+            let _ = std::fs::remove_file(&out_path);
+            let _ = std::fs::remove_file(&file);
+            if !worker.is_finished() { return Err(format!("follow mode with the interrupt flag cleared and a backlog {:?} did not stop", backlog)); }
+            worker.join().map_err(|_| "panic".to_owned())??;
+            let printed: Vec<&str> = text.lines().filter(|l| !l.contains('\u{1b}')).collect();
+            if printed.is_empty() { Ok(()) } else { Err(format!("follow mode, interrupt already pending, backlog {:?}: lines were consumed after the interrupt, printed {:?}", backlog, printed)) }
+        });
+    }
     // which lines of the joined file were consumed after an interrupt, probed through the queried table: at most the first ten
     for (i, (head, noise)) in [(5usize, 25usize), (0, 30), (9, 40), (3, 7), (12, 3)].iter().enumerate() {
         let (head, noise) = (*head, *noise);
